@@ -33,7 +33,9 @@ def isIdentifierPart (idc : Nat → Bool) (c : Nat) : Bool :=
 /-- regexp.go:144-153: consume octal digits; (value, size, rest) -/
 def octLoop : List Nat → Nat → Nat → Nat × Nat × List Nat
   | [], v, n => (v, n, [])
-  | c :: cs, v, n => if digitValue c < 8 then octLoop cs (v * 8 + digitValue c) (n + 1) else (v, n, c :: cs)
+  | c :: cs, v, n =>
+    if n = 3 ∨ (n = 2 ∧ v ≥ 32) then (v, n, c :: cs)              -- at most \377
+    else if digitValue c < 8 then octLoop cs (v * 8 + digitValue c) (n + 1) else (v, n, c :: cs)
 
 /-- regexp.go:180-188: consume decimal digits; (consumed, rest) -/
 def decLoop : List Nat → List Nat × List Nat
@@ -91,7 +93,7 @@ def scanEscape (idc : Nat → Bool) (inClass : Bool) (inp : List Nat) (st : St) 
         else if 65 ≤ l ∧ l ≤ 90 then (st.emit (hexEsc (l - 65 + 1)), ls)
         else (st.emit [99], cs)
       | [] => (st.emit [99], [])
-    else if c = 36 ∨ !isIdentifierPart idc c then (st.emit [92, c], cs)
+    else if c = 36 ∨ (c < 128 ∧ !isIdentifierPart idc c) then (st.emit [92, c], cs)
     else (st.emit [c], cs)
 
 /-- regexp.go:134 the loop of scanBracket (after the `[` has been passed) -/
@@ -140,10 +142,11 @@ def scanBracket0 (idc : Nat → Bool) (n : Nat) (inp : List Nat) (st : St) : St 
   | 94 :: 93 :: cs => (st.emit fullRange, cs)
   | _ => scanBracket idc n inp st
 
-/-- regexp.go:83-90: the look-ahead test at the start of scanGroup -/
+/-- regexp.go:83-94: the test at the start of scanGroup: look-ahead (unsupported) or a `(?` that is
+    neither `(?:` nor a look-ahead (invalid) -/
 def lookCheck (inp : List Nat) (st : St) : St :=
   match inp with
-  | 63 :: d :: _ => if d = 61 ∨ d = 33 then st.fail else st
+  | 63 :: d :: _ => if d = 61 ∨ d = 33 then st.fail else if d ≠ 58 then st.bad else st      -- (?i) (?P<…: Invalid group
   | _ => st
 
 /-- regexp.go:59 scan (`top = true`) and regexp.go:82 scanGroup's loop (`top = false`) -/
